@@ -1,6 +1,17 @@
 """C05 - elastic_integer never overflows and stays within its declared digits (engine E-elastic)."""
 import random
 from .. import core
+from . import big
+
+
+def _be(d1, d2, n, tag, ops):
+    a, b = "cnl::elastic_integer<%d,%s>" % (d1, n), "cnl::elastic_integer<%d,%s>" % (d2, n)
+    return ("big elastic<%d,%s> elastic<%d,%s> [%s]" % (d1, tag, d2, tag, ops), a, b, ops, 0)
+
+
+# elastic_integer whose (widened) result storage is Karatsuba-sized or has an odd limb count, and long Knuth divisions
+BIG = [_be(600, 600, "cnl::wide_integer<7,signed char>", "w8", "+-*/%<"), _be(2100, 2100, "cnl::wide_integer<31,int>", "w32", "+-*<"), _be(900, 300, "cnl::wide_integer<31,int>", "w32", "*/%"), _be(640, 420, "cnl::wide_integer<15,short>", "w16", "*/%<"),
+       _be(4200, 4200, "cnl::wide_integer<63,std::int64_t>", "w64", "*"), _be(520, 520, "cnl::wide_integer<8,unsigned char>", "wu8", "+-*/%<")]
 
 NARROW = [("signed char", "i8", 1), ("unsigned char", "u8", 0), ("int", "i32", 1), ("unsigned", "u32", 0), ("std::int64_t", "i64", 1), ("short", "i16", 1)]
 DIGITS = [1, 2, 7, 8, 9, 15, 16, 17, 31, 32, 33, 62, 63]
@@ -69,6 +80,16 @@ def kernels(tier, seed):
         if op == "MUL" and ld + rd > 120: continue
         add("escaled<%d,%d,%s> %s escaled<%d,%d,%s>" % (ld, le, NARROW[ln][1], sym, rd, re_, NARROW[rn][1]),
             "c05::scaled<c05::%s,%d,%d,%s,%d,%d,%s>" % (op, ld, le, NARROW[ln][0], rd, re_, NARROW[rn][0]))
+    # wide_integer storage (results above 127 digits): a fixed set of (LhsDigits, RhsDigits, limb type) x operator
+    wn = [("cnl::wide_integer<31,int>", "w32"), ("cnl::wide_integer<63,std::int64_t>", "w64"), ("cnl::wide_integer<7,signed char>", "w8")]
+    wpairs = [(150, 100), (220, 150), (50, 200), (130, 130), (200, 31), (128, 64), (190, 60)]
+    wops = [("ADD", "+"), ("SUB", "-"), ("MUL", "*"), ("DIV", "/"), ("MOD", "%"), ("LT", "<"), ("EQ", "==")]
+    for ld, rd in wpairs:
+        for nc, nn in wn:
+            for op, sym in wops:
+                if op == "MUL" and ld + rd > 250: continue
+                if tier == "quick" and (ld + rd + len(nn) + len(op)) % 2 and (ld, rd) not in ((220, 150), (50, 200)): continue
+                add("elastic<%d,%s> %s elastic<%d,%s> [wide]" % (ld, nn, sym, rd, nn), "c05::binary_wide<c05::%s,%d,%d,%s>" % (op, ld, rd, nc))
     return [(d, '%s("%s");' % (c, d)) for d, c in ks.items()]
 
 
@@ -85,13 +106,16 @@ def run(tier, seed, only=None):
     for cfg in cfgs:
         for i, sh in enumerate(core.shard(ks, 1 if only else (32 if tier == "quick" else 64))):
             jobs.append(core.Job("c05-%d" % i, core.tu("c05.h", sh), cfg, env=env, timeout=3600))
+    jobs += big.make_jobs("c05", BIG, tier, seed, cfgs, only)
     core.build_and_run(jobs, "C05")
     for j in jobs:
         res.absorb(j)
+        if getattr(j, "post", None):
+            j.post(res, j)
         if j.died:
             res.inconclusive.append("binary %s[%s] died outside a guarded case (rc=%s)" % (j.name, j.config, j.rc))
     res.extra["kernels_generated"] = len(ks)
-    return res.finish(RULE, assumptions=[
+    return res.finish(RULE + big.RULE, assumptions=[
         "oracle: exact arithmetic on 256-bit integers; / truncates toward zero, % has the sign of the dividend, >> is the arithmetic (floor) shift",
         ">> constant<s> judged for s < D only (result type with <= 0 digits is degenerate); result digits above 127 (wide_integer storage) not generated here",
         "expected digit counts are not prescribed: exact value, value inside the range the result type reports, limits formula"])
